@@ -247,8 +247,10 @@ func (r *ruleState) follow(req *ReqRec, kind t_api.Kind, id string, mask int, ta
 					always = false
 				}
 			} else {
+				// the same schedule throughout: one that was deleted and created again in between
+				// is a new item (new position), not one that was there all along
 				row := stt.Schedules[cid]
-				if row == nil || !tables.TagsMatch(row.Tags, tags) {
+				if row == nil || !tables.TagsMatch(row.Tags, tags) || row.SortId != first.Schedules[cid].SortId {
 					always = false
 				}
 			}
